@@ -11,7 +11,7 @@ mkdir -p "$W/verif"; cp -r /verif/spec /verif/props "$W/verif/"; [ -f /verif/kno
 if ! (cd "$W/repo" && patch -p1 -s < "$SEED/patch.diff"); then echo "PATCH-FAILED $SEED"; rm -rf "$W"; exit 3; fi
 rc=0
 for p in $PROPS; do
-  out=$(cd /verif && ./bin/govc check -prop $p -repo "$W/repo" -verif "$W/verif" 2>&1)
+  out=$(cd /verif && ${GOVC:-./bin/govc} check -prop $p -repo "$W/repo" -verif "$W/verif" 2>&1)
   r=$?
   echo "[$p rc=$r]"
   echo "$out" | grep -E 'VIOLATION|UNDECIDED|KNOWN' | head -6 | sed "s|$W||g"
